@@ -871,7 +871,7 @@ func cpFeedColls(sc *Script) []int {
 
 func genCheckpointScript(rt *rapid.T) *Script {
 	multi := chance(rt, 40, "cp.multi")
-	sc := &Script{Config: Config{Disk: chance(rt, 30, "disk"), Handles: rapid.IntRange(1, 2).Draw(rt, "handles"), Colls: allCollNames[:1]}, Extra: map[string]any{}}
+	sc := &Script{Config: Config{Disk: chance(rt, 30, "disk"), Handles: pick(rt, []int{1, 2, 2, 3}, "handles"), Colls: allCollNames[:1]}, Extra: map[string]any{}}
 	if multi {
 		sc.Config.Colls = allCollNames[:3]
 		sc.Extra["multi"] = true
